@@ -58,6 +58,7 @@ Section Hnc.
   Variable cb : kind -> nat -> world -> R.
   Hypothesis Hcb : cb_ok cb.
 
+  Ltac redw := unfold put, set_list, set_jobs, set_conns; cbn [conns jobs s_list next].
   Ltac ext := intros; unfold put, updf, set_list, set_jobs, set_svc, set_slots, set_withdrawn, logit, set_log, set_behs, set_prio,
                 set_destroy_called, set_next; simpl;
               repeat match goal with |- context [Nat.eqb ?a ?b] => destruct (Nat.eqb_spec a b); subst end; try congruence; auto.
@@ -172,7 +173,7 @@ Section Hnc.
           set (w7 := put c (w_st ESTABLISHED (conns w6 c)) w6).
           assert (Cw7 : conns w7 c = w_st ESTABLISHED (conns w6 c)) by (unfold w7; simpl; apply updf_same).
           rewrite (unref_nz cb c w7); try (rewrite Cw7; simpl; auto). cbn [bind].
-          rewrite Cw7. cbn [c_rc w_st].
+          try rewrite Cw7; cbn [c_rc w_st]. try rewrite Es; simpl.
           eapply GI_ext with (w := put c (w_rc (c_rc (conns w6 c) - 1) (w_st ESTABLISHED (conns w6 c))) w6);
             try reflexivity.
           -- intros i. unfold w7. ext.
@@ -195,6 +196,8 @@ Section Hnc.
         set (x6 := w_st INACTIVE (w_reg false (w_st ACTIVE (w_reg true (conns w2 c))))).
         assert (Cw6 : conns w6 c = x6) by (unfold w6, w5; simpl; rewrite !updf_same; reflexivity).
         rewrite Dc2 in Ac2.
+        assert (Al6 : c_alloc (conns w6 c) = true) by (rewrite Cw6; unfold x6; cbn [c_alloc w_st w_reg]; auto).
+        assert (Rc6 : 1 <= c_rc (conns w6 c)) by (rewrite Cw6; unfold x6; cbn [c_rc w_st w_reg]; eapply CI_live_rc1; eauto).
         assert (LJ : LI J (c :: s_list w2)).
         { split; auto. intros c0 b E0. exfalso. apply (Jn3 c0); auto. }
         assert (Oth : forall i, i <> c -> CI (H i) (J i) (D i) (cnt i (jobs w2)) (mem_id i (c :: s_list w2)) (conns w2 i)).
@@ -202,32 +205,28 @@ Section Hnc.
           destruct (Nat.eqb_spec i c); try congruence. exact A2. }
         eapply safe_mono with (P := fun w' _ => GI H J D w').
         { intros w7 z7 G7. simpl. eapply GI_ext; [| | | | exact G7]; reflexivity. }
-        apply unref_ok; auto.
-        * rewrite Cw6. unfold x6. simpl. auto.
-        * rewrite Cw6. unfold x6. simpl. eapply CI_live_rc1; eauto.
-        * rewrite Cw6. intros Hn. unfold GI. split; [|split].
-          -- intros i. simpl. unfold updf. destruct (Nat.eqb_spec i c).
-             ++ subst i. rewrite Jc. unfold x6 in *. simpl in Hn. apply CI_j3_fail_n; auto.
-             ++ repeat (destruct (Nat.eqb_spec i c); try congruence). apply Oth; auto.
-          -- simpl. exact LJ.
-          -- simpl. intros i Hi. unfold updf. destruct (Nat.eqb_spec i c).
+        apply unref_ok; auto; rewrite Cw6; subst w6 w5 w4 w3.
+        * intros Hn. unfold GI. split; [|split].
+          -- intros i. redw. unfold updf. destruct (Nat.eqb_spec i c).
+             ++ subst i. rewrite Jc. try rewrite Dc2. unfold x6 in *. cbn [c_rc w_st w_reg] in Hn.
+                cbn [c_rc w_st w_reg]. eapply CI_j3_fail_n; eauto.
+             ++ apply Oth; auto.
+          -- redw. exact LJ.
+          -- redw. intros i Hi. unfold updf. destruct (Nat.eqb_spec i c).
              ++ subst i. exfalso. specialize (C2 c Hi). rewrite P2 in C2. discriminate.
-             ++ repeat (destruct (Nat.eqb_spec i c); try congruence). apply C2; auto.
-        * rewrite Cw6. intros Hz. unfold x6 in Hz. simpl in Hz.
+             ++ apply C2; auto.
+        * intros Hz. unfold x6 in Hz. cbn [c_rc w_st w_reg] in Hz.
           destruct (CI_j3_fail_z _ _ _ _ Ac2 Hz) as (U0 & Cz).
           split; [|split].
-          -- unfold x6; simpl. rewrite P2. simpl. congruence.
-          -- unfold x6; simpl. auto.
+          -- unfold x6; cbn [c_ph w_st w_reg]. rewrite P2. simpl. congruence.
+          -- unfold x6; cbn [c_uref w_st w_reg]. auto.
           -- unfold GI. split; [|split].
-             ++ intros i. simpl. unfold updf. destruct (Nat.eqb_spec i c).
-                ** subst i. rewrite setb_same, Jc. rewrite Nat.eqb_refl. simpl.
-                   rewrite mem_remove_same. exact Cz.
-                ** rewrite setb_other by auto. repeat (destruct (Nat.eqb_spec i c); try congruence).
-                   destruct (Nat.eqb_spec c c); try congruence. simpl.
-                   rewrite mem_remove_other by auto.
-                   specialize (A2 i). rewrite setf_other in A2 by auto. exact A2.
-             ++ simpl. rewrite Nat.eqb_refl. simpl. apply LI_remove. eapply LI_setf_out; [|exact B2]. rewrite Jc; discriminate.
-             ++ simpl. intros i Hi. unfold updf. destruct (Nat.eqb_spec i c); auto.
-                repeat (destruct (Nat.eqb_spec i c); try congruence). apply C2; auto.
+             ++ intros i. redw. unfold updf. destruct (Nat.eqb_spec i c).
+                ** subst i. rewrite setb_same, Jc. rewrite mem_remove_same. exact Cz.
+                ** rewrite setb_other by auto. rewrite mem_remove_other by auto. apply Oth; auto.
+             ++ redw. apply LI_remove. exact LJ.
+             ++ redw. intros i Hi. unfold updf. destruct (Nat.eqb_spec i c).
+                ** subst i. exfalso. specialize (C2 c Hi). rewrite P2 in C2. discriminate.
+                ** apply C2; auto.
   Qed.
 End Hnc.
